@@ -573,3 +573,51 @@ def obs_C10_pair(gA, gB, kind, out):
 
 
 P.OBS_PAIR["C10"] = obs_C10_pair
+
+
+# ---------------------------------------------------------------------------------------------
+# C11: targets on the wall, cells inside / guard cells outside, penalty_mask, wall output
+def input_wall(cfg):
+    from harness import equilibria as E
+
+    if cfg.get("family", "tokamak") != "tokamak":
+        return None
+    w = E.default_wall(slanted=("many" if cfg.get("wall") == "many" else cfg.get("wall") == "slanted"), mirror=cfg.get("mirror", False))
+    if cfg.get("wall_clockwise"):
+        w = w[::-1]
+    return [list(map(float, p)) for p in w]
+
+
+def obs_C11(g, out):
+    from harness import oracles as O
+
+    win = input_wall(g.cfg)
+    out["haswall"] = 0 if win is None else 1
+    if win is None:
+        return
+    poly = np.array(win)
+    wR, wZ = np.atleast_1d(g.var("closed_wall_R")), np.atleast_1d(g.var("closed_wall_Z"))
+    out["wall_in7"] = [[Qs(p[0], 1e-7), Qs(p[1], 1e-7)] for p in win]
+    out["wall_out7"] = [[Qs(a, 1e-7), Qs(b, 1e-7)] for a, b in zip(wR, wZ)]
+    out["wall_out3"] = [[Qs(a, 1e-3), Qs(b, 1e-3)] for a, b in zip(wR, wZ)]
+    pts = {"lo": (g.var("Rxy_ylow"), g.var("Zxy_ylow")), "hi": (upper_face(g, "Rxy", "ylow"), upper_face(g, "Zxy", "ylow")),
+           "c": (g.var("Rxy"), g.var("Zxy")),
+           "klo": (region_assemble(g, "Rxy", "corners"), region_assemble(g, "Zxy", "corners")),
+           "khi": (upper_face(g, "Rxy", "corners"), upper_face(g, "Zxy", "corners"))}
+    out["dw"] = {k: Q(O.poly_distance(poly, R, Z), 1e-8) for k, (R, Z) in pts.items()}
+    out["inw"] = {k: O.poly_inside(poly, R, Z).astype(int).tolist() for k, (R, Z) in pts.items()}
+    pm = g.var("penalty_mask")
+    out["pm"] = Q(pm, 1e-6)
+    Rl, Zl = pts["lo"]
+    Rh, Zh = pts["hi"]
+    fr = np.full(pm.shape, np.nan)
+    for x in range(pm.shape[0]):
+        for y in range(pm.shape[1]):
+            fr[x, y] = O.chord_outside_fraction(poly, (Rl[x, y], Zl[x, y]), (Rh[x, y], Zh[x, y]))
+    out["frac"] = Q(fr, 1e-6)
+    q = 1e-8 * g.psi_scale()
+    out["psivals"] = [Q(r["psi_vals"], q) for r in sorted(g.extra["regions"], key=lambda r: r["id"])]
+    out["psi_t"] = {"lo": Q(g.eq.psi(Rl, Zl), q), "hi": Q(g.eq.psi(Rh, Zh), q)}
+
+
+P.OBS["C11"] = obs_C11
